@@ -364,6 +364,74 @@ func typeStr(t types.Type) string {
 // parameter's type) establishes for that type parameter.
 func (c *Ctx) armSize(stack []ast.Node) (int64, bool) {
 	info := c.m.Info
+	sizeofTP := func(e ast.Expr) bool {
+		call, ok := ast.Unparen(e).(*ast.CallExpr)
+		if !ok || c.m.calleeName(call) != "unsafe.Sizeof" || len(call.Args) != 1 {
+			return false
+		}
+		_, isTP := types.Unalias(info.TypeOf(call.Args[0])).(*types.TypeParam)
+		return isTP
+	}
+	// if unsafe.Sizeof(k) == C { … } else { … } inside `case T1, T2, …:` of the type switch: the
+	// true branch fixes the size; the else branch has the one other size the listed types have
+	for i := len(stack) - 1; i >= 1; i-- {
+		ifs, ok := stack[i-1].(*ast.IfStmt)
+		if !ok {
+			continue
+		}
+		be, ok := ast.Unparen(ifs.Cond).(*ast.BinaryExpr)
+		if !ok || (be.Op != token.EQL && be.Op != token.NEQ) {
+			continue
+		}
+		var cst ast.Expr
+		switch {
+		case sizeofTP(be.X):
+			cst = be.Y
+		case sizeofTP(be.Y):
+			cst = be.X
+		default:
+			continue
+		}
+		tv, ok := info.Types[cst]
+		if !ok || tv.Value == nil {
+			continue
+		}
+		cv, exact := constant.Int64Val(constant.ToInt(tv.Value))
+		if !exact {
+			continue
+		}
+		inThen := stack[i] == ast.Node(ifs.Body)
+		inElse := ifs.Else != nil && stack[i] == ast.Node(ifs.Else)
+		if (inThen && be.Op == token.EQL) || (inElse && be.Op == token.NEQ) {
+			return cv, true
+		}
+		if inThen || inElse {
+			// the other sizes of the types listed by the enclosing case of the type switch
+			for j := i - 2; j >= 0; j-- {
+				cc, ok := stack[j].(*ast.CaseClause)
+				if !ok || len(cc.List) == 0 {
+					continue
+				}
+				others := map[int64]bool{}
+				allTypes := true
+				for _, e := range cc.List {
+					if ttv, ok := info.Types[e]; ok && ttv.IsType() {
+						if sz := c.L.Sizes.Sizeof(ttv.Type); sz != cv {
+							others[sz] = true
+						}
+					} else {
+						allTypes = false
+					}
+				}
+				if allTypes && len(others) == 1 {
+					for sz := range others {
+						return sz, true
+					}
+				}
+				break
+			}
+		}
+	}
 	for i := len(stack) - 1; i >= 2; i-- {
 		cc, ok := stack[i].(*ast.CaseClause)
 		if !ok || len(cc.List) != 1 {
